@@ -27,6 +27,7 @@ import (
 	"github.com/slackhq/nebula/cert"
 	"github.com/slackhq/nebula/cert_test"
 	"github.com/slackhq/nebula/header"
+	"go.yaml.in/yaml/v3"
 )
 
 const hsTick = 100 * time.Millisecond
@@ -42,6 +43,7 @@ type hsWorld struct {
 	byMid    map[int]*vDatagram // a representative datagram per message id
 	lines    []map[string]any
 	retries  int
+	sendNo   int
 }
 
 func hsUDP(last byte) netip.AddrPort {
@@ -112,6 +114,25 @@ func hsNewWorld(t testing.TB, retries int) *hsWorld {
 		ctrl, vpn, _, cfg := newServer([]cert.Certificate{w.CA}, []cert.Certificate{c1, c2}, keyPEM, base)
 		nd := &vNode{Name: "P", Ctrl: ctrl, Vpn: vpn, UDP: hsUDP(5), Cfg: cfg, stop: make(chan struct{})}
 		w.Nodes["P"], w.byUDP[nd.UDP], w.udpName[nd.UDP] = nd, nd, "P"
+	}
+	// outbound firewall: only destination port 5000 is allowed (the e2e default rule allows everything and the
+	// helper appends to it, so the rule set is replaced through a config reload before the nodes start)
+	for _, nd := range w.sorted() {
+		st := map[string]any{}
+		for k, v := range nd.Cfg.Settings {
+			st[k] = v
+		}
+		st["firewall"] = map[string]any{
+			"outbound": []any{map[string]any{"proto": "any", "port": 5000, "host": "any"}},
+			"inbound":  []any{map[string]any{"proto": "any", "port": "any", "host": "any"}},
+		}
+		raw, err := yaml.Marshal(st)
+		if err != nil {
+			t.Fatalf("verif: yaml: %v", err)
+		}
+		if err := nd.Cfg.ReloadConfigString(string(raw)); err != nil {
+			t.Fatalf("verif: reload: %v", err)
+		}
 	}
 	return w
 }
@@ -227,6 +248,7 @@ func (w *hsWorld) others(except *vNode) string {
 	return ""
 }
 
+// tunSend injects an inside packet; every fifth one goes to a port the outbound firewall does not allow
 func (w *hsWorld) tunSend(nd *vNode, to netip.Addr, tag string) {
 	src := nd.Vpn[0].Addr()
 	for _, p := range nd.Vpn {
@@ -234,8 +256,14 @@ func (w *hsWorld) tunSend(nd *vNode, to netip.Addr, tag string) {
 			src = p.Addr()
 		}
 	}
-	w.TunSend(nd, vUDPPacket(src, to, 4000, 5000, []byte(tag)))
-	ev := map[string]any{"ev": "TunSend", "n": nd.Name, "a": w.addrName[to]}
+	w.sendNo++
+	ok := w.sendNo%5 != 3
+	port := uint16(5000)
+	if !ok {
+		port = 6000
+	}
+	w.TunSend(nd, vUDPPacket(src, to, 4000, port, []byte(tag)))
+	ev := map[string]any{"ev": "TunSend", "n": nd.Name, "a": w.addrName[to], "ok": ok}
 	w.post(nd, ev)
 	w.log(ev)
 }
